@@ -9,6 +9,8 @@ from uriutil import render_uri
 ID = 'C10'
 MODULES = ['Httoop.Props.C10']
 THEOREMS = [
+	'Httoop.Uri.uri_cuts',
+	'Httoop.Uri.compose_assemble',
 	'Httoop.Uri.delimiters_encoded',
 	'Httoop.Uri.quote_clean',
 	'Httoop.Uri.userinfo_roundtrip',
@@ -168,6 +170,6 @@ def finding_still_fails(k):
 
 
 LEVEL_TEXT = ('Theorems for ALL component values in the guarded domain (any length): every octet that is a delimiter in its position is outside that position\'s safe set (regenerated tables), the output of quote() contains no such delimiter, '
-	'and the three structured pieces are cut back exactly: userinfo (user[:password], colons in the user name escaped), host[:port] (decimal port read back by int()), and the path (segment-wise quoting, arbitrary UTF-8 text). The assembled eight-component statement is correspondence/oracle-level (open as one theorem). '
+	'and the three structured pieces are cut back exactly: userinfo (user[:password], colons in the user name escaped), host[:port] (decimal port read back by int()), and the path (segment-wise quoting, arbitrary UTF-8 text). The outer cuts of parse (fragment, query, scheme, authority, path) find exactly the pieces compose assembled whenever each piece is free of the delimiters that end it (uri_cuts; compose_assemble ties the assembly to compose) - the clause that no component leaks into its neighbour. What remains correspondence/oracle-level is the last step: filling the record (class by scheme, port setter defaults). '
 	'IPv6 literals and internationalised names go through socket/idna and are covered by the oracle on the real code only.')
 LEVEL_NOTE = 'Trusted: Lean kernel; UTF-8 codec; extract.py/correspondence. inet_pton/ntop and the idna codec are parameters the model does not contain.'
